@@ -198,6 +198,22 @@ def _A(ctx, d, pgpy):
             ctx.fail('pgpy-rejects-own-signature-after-reimport', {'case': d, 'result': r, 'detail': repr(det)[:200], 'sig': hx(sigbytes)})
         else:
             ctx.count('pgpy_made_reimport_verified')
+        # ... and so does a copy of the re-imported signature / message (public twins and copied keys hold such copies)
+        import copy as _copy
+        if t.carrier == 'detached':
+            sc = _copy.copy(sig2)
+            rc_, _ = sigwork.pgpy_verify(pub2, subj2, sc)
+            if bytes(sc) != sigbytes or rc_ != 'true':
+                ctx.fail('copy-of-reimported-signature-differs-or-fails', {'case': d, 'result': rc_, 'same_octets': bytes(sc) == sigbytes})
+            ok3, why3, _ = sigwork.ref_check(bytes(sc), t.signer, t.refsubj)
+            if not ok3:
+                ctx.fail('reference-rejects-copy-of-reimported-signature', {'case': d, 'why': why3})
+        else:
+            mc = _copy.copy(m2)
+            rc_, _ = sigwork.pgpy_verify(pub2, mc)
+            if rc_ != 'true':
+                ctx.fail('copy-of-reimported-message-fails', {'case': d, 'result': rc_})
+        ctx.count('copies_checked')
         # armored transport of the signature
         if t.carrier == 'detached':
             sig3 = pgpy.PGPSignature.from_blob(str(t.sig))
